@@ -9,6 +9,7 @@ import ESV.Decomp.Group
 import ESV.Decomp.SemB
 import ESV.Decomp.GrGuard
 import ESV.Decomp.Switch
+import ESV.Decomp.Loops
 open Lean Drv ESV ESV.Beh ESV.Decomp
 
 namespace Drv.DecompD
@@ -52,6 +53,25 @@ def sgraphTo (g : BGraph) : Json :=
     ("es", jList (fun (e : BEdge) => Json.arr #[jNat e.src, jNat e.dst, jNat e.level, .bool e.loop, .bool e.isElse,
       jList swOpTo e.switchOps]) g.es)]
 
+/-- a graph from `build_switch_fallthroughs` on: `sgraphTo` plus the fall-through, loop and `force_write` attributes and the
+flag "syn" of the vertices `build_loops` inserted (dumped as their root op) -/
+def lgraphTo (g : BGraph) : Json :=
+  let vs := match (sgraphTo g).getObjValD "vs" with
+    | .arr a => a.toList
+    | _ => []
+  Json.mkObj [("vs", .arr ((vs.zip g.vs).map fun (j, v) =>
+      (j.setObjVal! "ft" (.bool v.fallthrough)).setObjVal! "fs" (jOpt jNat v.foreverStart) |>.setObjVal! "fe" (jList jNat v.foreverEnds)
+        |>.setObjVal! "fb" (jOpt jNat v.foreverBreak) |>.setObjVal! "fc" (jOpt jNat v.foreverContinue)
+        |>.setObjVal! "fw" (.bool v.forceWrite) |>.setObjVal! "syn" (.bool v.synthetic)).toArray),
+    ("es", (sgraphTo g).getObjValD "es")]
+
+structure LpOracle where
+  ftMarked : List (List Nat)
+  ftRaised : Option String
+  records : List (List LoopRec)
+  /-- the decision part of `build_loops` raised while graph `k` was processed -/
+  raised : Option (Nat × String)
+
 def answerTo : Option (Nat × Nat) → Json
   | none => .null
   | some (a, b) => .arr #[jNat a, jNat b]
@@ -59,7 +79,7 @@ def answerTo : Option (Nat × Nat) → Json
 /-- `build_branches` of the model on the graphs that leave `optimize_paths`, with the recorded answers of the search
 (one list per routine graph); the first exception aborts the phase, as in `build_branches()` -/
 def frontBranches (labels : List Lbl) (gs os : List Graph) (answers : List (List (Option (Nat × Nat))))
-    (swAnswers : List (List (Option (List Nat)))) : List (String × Json) :=
+    (swAnswers : List (List (Option (List Nat)))) (lp : Option LpOracle := none) : List (String × Json) :=
   let names := gs.map (optNames labels)
   let bgs := (os.zip names).map fun (o, ns) => BGraph.ofGraph ns o
   let err (e : String) : Json := Json.mkObj [("error", .str e)]
@@ -77,11 +97,26 @@ def frontBranches (labels : List Lbl) (gs os : List Graph) (answers : List (List
               | .error e => [("sc", err e)]
               | .ok scs => ("sc", jList sgraphTo scs) :: match scs.mapM groupSwitchCases with
                 | .error e => [("gs", err e)]
-                | .ok gss => [("gs", jList sgraphTo gss)]
+                | .ok gss => ("gs", jList sgraphTo gss) :: match lp with
+                  | none => []
+                  | some o =>
+                    -- build_switch_fallthroughs (marked labels = oracle), build_loops (constructions = oracle), remove_label_markers
+                    match (match o.ftRaised with
+                      | some cls => Except.error cls
+                      | none => (gss.zipIdx).mapM (fun (b, k) => buildSwitchFallthroughs (o.ftMarked.getD k []) b)) with
+                    | .error e => [("fl", err e)]
+                    | .ok fls => ("fl", jList lgraphTo fls) :: match (fls.zipIdx).mapM (fun (b, k) =>
+                        buildLoops (o.records.getD k []) b (match o.raised with
+                          | some (k', cls) => if k' == k then some cls else none
+                          | none => none)) with
+                      | .error e => [("bl", err e)]
+                      | .ok bls => ("bl", jList lgraphTo bls) :: match bls.mapM (removeLabelMarkers labels) with
+                        | .error e => [("rl", err e)]
+                        | .ok rls => [("rl", jList lgraphTo rls)]
   ("opt_names", jList (jList (jOpt jNat)) names) :: rest
 
 def front (rs : List (List MOp)) (answers : Option (List (List (Option (Nat × Nat)))))
-    (swAnswers : List (List (Option (List Nat))) := []) : Json :=
+    (swAnswers : List (List (Option (List Nat))) := []) (lp : Option LpOracle := none) : Json :=
   match resolve rs with
   | .error e => Json.mkObj [("error", .str e), ("stage", .str "resolve")]
   | .ok r =>
@@ -93,7 +128,7 @@ def front (rs : List (List MOp)) (answers : Option (List (List (Option (Nat × N
       match gs.mapM (optimizePaths r.labels) with
       | .ok os =>
         let bb := match answers with
-          | some ans => frontBranches r.labels gs os ans swAnswers
+          | some ans => frontBranches r.labels gs os ans swAnswers lp
           | none => []
         Json.mkObj (base ++ [("graphs", jList graphTo gs), ("opt", jList graphTo os)] ++ bb)
       | .error e => Json.mkObj (base ++ [("graphs", jList graphTo gs), ("opt", Json.mkObj [("error", .str e)])])
@@ -198,7 +233,29 @@ def swAnswerOf (j : Json) : R (Option (List Nat)) := do
 def swAnswersOf (j : Json) : R (List (List (Option (List Nat)))) := do
   (← asArr j).mapM fun g => do (← asArr g).mapM swAnswerOf
 
-/-- also reads the graphs of `sgraphTo` (optional keys "sws" / "swe", optional sixth entry of an edge) -/
+def loopRecOf (j : Json) : R LoopRec := do
+  match (← asArr j) with
+  | [v, bs, cs] => pure ⟨← asNat v, ← (← asArr bs).mapM asNat, ← (← asArr cs).mapM asNat⟩
+  | _ => throw "bad loop record"
+
+def lpOracleOf (j : Json) : R (Option LpOracle) := do
+  match j.getObjVal? "ft_marked" with
+  | .error _ => pure none
+  | .ok m =>
+    let ftMarked ← (← asArr m).mapM fun g => do (← asArr g).mapM asNat
+    let ftRaised ← match j.getObjVal? "ft_raised" with
+      | .ok a => asOpt asStr a
+      | .error _ => pure none
+    let records ← match j.getObjVal? "lp_records" with
+      | .ok a => do (← asArr a).mapM fun g => do (← asArr g).mapM loopRecOf
+      | .error _ => pure []
+    let raised ← match j.getObjVal? "lp_raised" with
+      | .ok (.arr #[k, c]) => do pure (some (← asNat k, ← asStr c))
+      | _ => pure none
+    pure (some ⟨ftMarked, ftRaised, records, raised⟩)
+
+/-- also reads the graphs of `sgraphTo` / `lgraphTo` (optional keys "sws" / "swe", "ft" / "fs" / "fe" / "fb" / "fc" / "fw" / "syn", optional
+sixth entry of an edge) -/
 def bgraphOf (j : Json) : R BGraph := do
   let vs ← (← asArr (← fld j "vs")).mapM fun v => do
     let mops ← match v.getObjVal? "mops" with
@@ -213,7 +270,17 @@ def bgraphOf (j : Json) : R BGraph := do
     let swe ← match v.getObjVal? "swe" with
       | .ok a => do (← asArr a).mapM asNat
       | .error _ => pure []
-    pure (⟨← asOpt asNat (← fld v "n"), ← vopOf v, ← asOpt asNat (← fld v "ifs"), ← (← asArr (← fld v "ife")).mapM asNat, mops, isNot, sws, swe⟩ : BVertex)
+    let optB (k : String) : R Bool := match v.getObjVal? k with
+      | .ok a => asBool a
+      | .error _ => pure false
+    let optN (k : String) : R (Option Nat) := match v.getObjVal? k with
+      | .ok a => asOpt asNat a
+      | .error _ => pure none
+    let fe ← match v.getObjVal? "fe" with
+      | .ok a => do (← asArr a).mapM asNat
+      | .error _ => pure []
+    pure (⟨← asOpt asNat (← fld v "n"), ← vopOf v, ← asOpt asNat (← fld v "ifs"), ← (← asArr (← fld v "ife")).mapM asNat, mops, isNot, sws, swe,
+      ← optB "fw", ← optB "ft", ← optN "fs", fe, ← optN "fb", ← optN "fc", ← optB "syn"⟩ : BVertex)
   let es ← (← asArr (← fld j "es")).mapM fun e => do
     match (← asArr e) with
     | [s, d, l, lp, el] => pure (⟨← asNat s, ← asNat d, ← asNat l, ← asBool lp, ← asBool el, []⟩ : BEdge)
@@ -343,7 +410,7 @@ def handle (op : String) (j : Json) : R Json := do
     let swAnswers ← match j.getObjVal? "sw_answers" with
       | .ok a => swAnswersOf a
       | .error _ => pure []
-    pure (front rs answers swAnswers)
+    pure (front rs answers swAnswers (← lpOracleOf j))
   | _ => throw s!"unknown op {op}"
 
 end Drv.DecompD
